@@ -5,7 +5,7 @@ For each seed: scratch copy of /repo -> apply patch -> existing tests must pass 
 revert -> demo must pass -> run ./check <P> quick against the patched copy (VERIF_REPO)."""
 import json, os, re, shutil, subprocess, sys, time
 root, worker = sys.argv[1], sys.argv[2]
-VERIF = "/verif"
+VERIF = os.path.dirname(os.path.dirname(os.path.abspath(__file__)))
 tgt = "/tmp/seedrun/target%s" % worker
 os.makedirs("/tmp/seedrun", exist_ok=True)
 env = dict(os.environ, CARGO_NET_OFFLINE="true", CARGO_TARGET_DIR=tgt)
